@@ -74,6 +74,10 @@ class VMDK(AlignedStream):
                                 data_offset=(extent.start_sector or 0) * SECTOR_SIZE,
                             )
                         )
+                    elif extent.type == "ZERO":
+                        self.disks.append(ZeroDisk(extent.sectors * SECTOR_SIZE))
+                    else:
+                        raise NotImplementedError(f"Unsupported extent type: {extent.type}")
 
             elif magic in (COWD_MAGIC, VMDK_MAGIC, SESPARSE_MAGIC):
                 sparse_disk = SparseDisk(fh)
@@ -161,6 +165,20 @@ class RawDisk:
 
         self.fh.seek(self.data_offset + (sector - self.sector_offset) * SECTOR_SIZE)
         return self.fh.read(count * SECTOR_SIZE)
+
+
+class ZeroDisk:
+    """An extent of type ZERO: it has no backing file and reads as zeros."""
+
+    def __init__(self, size: int, offset: int = 0, sector_offset: int = 0):
+        self.fh = None
+        self.size = size
+        self.offset = offset
+        self.sector_offset = sector_offset
+        self.sector_count = size // SECTOR_SIZE
+
+    def read_sectors(self, sector: int, count: int) -> bytes:
+        return b"\x00" * (count * SECTOR_SIZE)
 
 
 class SparseDisk:
